@@ -6,7 +6,7 @@ from props._fa_common import TRUSTED, ASSUMPTIONS, TECHNIQUE
 
 PROP = "C07"
 LEVEL = "other"
-THEOREMS = {"Properties.C07": ["C07_matcher", "C07_brackets_escape_from_source", "C07_translation_semantics"]}
+THEOREMS = {"Properties.C07": ["C07_matcher", "C07_brackets_escape_from_source", "C07_translation_semantics", "C07_accepts_code_path"]}
 LEVEL_TEXT = ("Partial + correspondence: the documented subset is given an abstract syntax and a translation to plain regular expressions in Gallina "
               "(sets and negated sets over string.printable, dot, alternation, groups, * + ? {m} {m,n} for all m <= n, \\d \\s \\w); the derivative matcher used "
               "to evaluate it is proved exact. CPython's re.fullmatch is the external oracle for the real semantics: the Gallina model is validated against "
